@@ -129,7 +129,7 @@ func (cs *caseSpec) filterCoq() string {
 // runCase builds the store content, runs the two observations, and cleans up.
 var phase = map[string]time.Duration{}
 
-func (e *env) runCase(cs *caseSpec) (obs []obsNode, obsErr error, locked []string, lockedErr error, infra error) {
+func (e *env) runCase(cs *caseSpec) (obs []obsNode, obsErr error, locked []string, lockedErr error, listed []string, listedErr error, infra error) {
 	t0 := time.Now()
 	ctx, cancel := context.WithTimeout(context.Background(), 20*time.Second)
 	defer cancel()
@@ -152,7 +152,7 @@ func (e *env) runCase(cs *caseSpec) (obs []obsNode, obsErr error, locked []strin
 	}()
 	for _, p := range cs.Pods {
 		if _, err := e.st.AddPod(ctx, p, ""); err != nil {
-			return nil, nil, nil, nil, err
+			return nil, nil, nil, nil, nil, nil, err
 		}
 	}
 	for _, n := range cs.Nodes {
@@ -162,18 +162,18 @@ func (e *env) runCase(cs *caseSpec) (obs []obsNode, obsErr error, locked []strin
 		}
 		node, err := e.st.AddNode(ctx, &types.AddNodeOptions{Nodename: n.Name, Endpoint: ep, Podname: n.Pod, Labels: n.Labels})
 		if err != nil {
-			return nil, nil, nil, nil, err
+			return nil, nil, nil, nil, nil, nil, err
 		}
 		added = append(added, node)
 		if n.Bypass {
 			node.Bypass = true
 			if err := e.st.UpdateNodes(ctx, node); err != nil {
-				return nil, nil, nil, nil, err
+				return nil, nil, nil, nil, nil, nil, err
 			}
 		}
 		if n.Status {
 			if err := e.st.SetNodeStatus(ctx, node, 600); err != nil {
-				return nil, nil, nil, nil, err
+				return nil, nil, nil, nil, nil, nil, err
 			}
 		}
 	}
@@ -194,6 +194,16 @@ func (e *env) runCase(cs *caseSpec) (obs []obsNode, obsErr error, locked []strin
 		for _, n := range ns {
 			obs = append(obs, obsNode{n.Name, n.Available})
 		}
+	}
+	// public API: pod-based listing straight from the store (sees down nodes too)
+	if ch, err := e.c.ListPodNodes(ctx, &types.ListNodesOptions{Podname: cs.F.Pod, Labels: cs.F.Labels, All: cs.F.All}); err != nil {
+		listedErr = err
+	} else {
+		listed = []string{}
+		for n := range ch {
+			listed = append(listed, n.Name)
+		}
+		sort.Strings(listed)
 	}
 	locked, lockedErr = e.c.VerifC21LockedNodes(ctx, nf())
 	sort.Strings(locked)
@@ -381,7 +391,7 @@ func TestC21(t *testing.T) {
 	r.Coq("From Verif Require Import Select.Model.", "Model.case", "Model.agree", "Model.ok")
 	envs := []*env{newEnv(t, "etcd"), newEnv(t, "redis")}
 	emit := func(e *env, cs caseSpec) {
-		obs, obsErr, locked, lockedErr, infra := e.runCase(&cs)
+		obs, obsErr, locked, lockedErr, listed, listedErr, infra := e.runCase(&cs)
 		if infra != nil {
 			t.Fatalf("harness infrastructure failure on %s: %v (case %+v)", e.name, infra, cs)
 		}
@@ -396,9 +406,13 @@ func TestC21(t *testing.T) {
 		if lockedErr == nil {
 			lockedT = vh.Some(cstrList(locked))
 		}
-		term := fmt.Sprintf("(mkCase %s %s %s %s)", cs.storeCoq(), cs.filterCoq(), obsT, lockedT)
+		listedT := "None"
+		if listedErr == nil {
+			listedT = vh.Some(cstrList(listed))
+		}
+		term := fmt.Sprintf("(mkCase %s %s %s %s %s)", cs.storeCoq(), cs.filterCoq(), obsT, lockedT, listedT)
 		desc := map[string]any{"backend": e.name, "case": cs, "filterNodes": obs, "filterNodes_err": errStr(obsErr),
-			"locked_nodes": locked, "locked_err": errStr(lockedErr)}
+			"locked_nodes": locked, "locked_err": errStr(lockedErr), "ListPodNodes": listed, "ListPodNodes_err": errStr(listedErr)}
 		mode := "pod"
 		if len(cs.F.Includes) > 0 {
 			mode = "includes"
